@@ -26,6 +26,8 @@ public:
     size_t m_size = 0;
 
     Array(T *array, size_t size, bool copy = true) {
+        m_size = size;
+
         if (copy) {
             if constexpr (!std::is_class_v<T>) {
                 m_array = static_cast<T *>(malloc(size * sizeof(T)));
@@ -40,8 +42,6 @@ public:
         } else { // Warning: dangerous since we don't know how the array was created
             m_array = array;
         }
-
-        m_size = size;
     }
 
     Array(std::initializer_list<T> initializerList) {
